@@ -24,6 +24,10 @@ Auto-mutation wave: R4 requires the duplicate-CORS refusal of ``App.add_middlewa
 branch only raises) to imply a truthy ``self._cors_enable`` - by itself or through a dominating test; explicitly stacked policies are
 not refused when the flag is off (sa-am00072).  Nested / chained spellings of the same guard are read.
 
+Wave 9: R6 = C02 R4 (shared): the Allow header the approve branch copies into Access-Control-Allow-Methods is the resource's own
+method list, SET by the automatic OPTIONS responder (an ``append_header('Allow', ..)`` merges a provisional Allow written earlier in the
+cycle and the preflight approves methods the resource answers with 405; seeded s9-c20-1).
+
 Contract names used as anchors: the parameter positions of
 ``process_response(self, req, resp, resource, req_succeeded)``, the public
 attributes ``allow_origins`` / ``allow_credentials`` / ``expose_headers``, the
@@ -776,3 +780,13 @@ def check(run):
     from . import c03 as _c03
 
     run.rule('R5', _c03.r2_discipline, 'the success flag handed to process_response is true only when no exception left the request cycle (shared with C03 R2)', floor=20)
+    # Allow sources: on the approve branch Access-Control-Allow-Methods is a COPY of the response's Allow header, so the preflight
+    # approves exactly what the Allow computation says.  That value must be the resource's own method list: the automatic OPTIONS
+    # responder (sync and async alike) SETS Allow to the snapshot of the implemented methods - an append would merge in a
+    # provisional Allow written earlier in the cycle (another middleware's process_resource) and the preflight would approve
+    # methods the resource answers with 405 (seed s9-c20-1).  The rule is C02's Allow computation, shared.
+    from . import c02 as _c02
+
+    run.rule('R6', _c02.r4_allow, 'Allow sources: the Allow value the preflight copies into Access-Control-Allow-Methods is exactly the resource\'s own '
+                                  'method list - computed from the method map, SET (not appended) by the automatic OPTIONS responder, sync and async '
+                                  'alike (shared with C02 R4)', floor=24)
